@@ -1129,6 +1129,83 @@ fn wake_send_waiters<T>(waiters: &mut LinkedList<SendWaitQueueEntry<T>>) {''',
      'old': '''    let mut node = last_child(first_child);''',
      'new': '''    let mut node = first_child;''',
      'expect': {'C20': ['C20.R2']}},
+    # ---------------------------------------------------------------- C01 (I2..I7, P)
+    {'name': 'event-future-no-drop', 'file': 'src/sync/manual_reset_event.rs',
+     'old': '''impl<'a, MutexType: RawMutex> Drop
+    for GenericWaitForEventFuture<'a, MutexType>
+{
+    fn drop(&mut self) {
+        // If this WaitForEventFuture has been polled and it was added to the
+        // wait queue at the event, it must be removed before dropping.
+        // Otherwise the event would access invalid memory.
+        if let Some(ev) = self.event {
+            ev.remove_waiter(&mut self.wait_node);
+        }
+    }
+}''',
+     'new': '''''',
+     'expect': {'C01': ['C01.I2']}},
+    {'name': 'timer-future-drop-skips-zero-deadline', 'file': 'src/timer/timer.rs',
+     'old': '''        if let Some(timer) = self.timer {
+            timer.remove_waiter(&mut self.wait_node);
+        }''',
+     'new': '''        if let Some(timer) = self.timer {
+            if self.wait_node.expiry != 0 { timer.remove_waiter(&mut self.wait_node); }
+        }''',
+     'expect': {'C01': ['C01.I2']}},
+    {'name': 'oneshot-unpinned-register-api', 'file': 'src/channel/oneshot.rs',
+     'old': '''    /// Returns a future that gets fulfilled when a value is written to the channel
+    /// or the channel is closed.
+    pub fn receive(&self) -> ChannelReceiveFuture<MutexType, T> {
+        ChannelReceiveFuture {
+            channel: Some(self),''',
+     'new': '''    /// Registers a future ahead of time.
+    pub fn prefetch(&self, fut: &mut ChannelReceiveFuture<MutexType, T>, cx: &mut Context<'_>) -> bool {
+        unsafe { self.inner.lock().try_receive(&mut fut.wait_node, cx).is_ready() }
+    }
+
+    /// Returns a future that gets fulfilled when a value is written to the channel
+    /// or the channel is closed.
+    pub fn receive(&self) -> ChannelReceiveFuture<MutexType, T> {
+        ChannelReceiveFuture {
+            channel: Some(self),''',
+     'expect': {'C01': ['C01.I4']}},
+    {'name': 'event-is-set-bypasses-lock', 'file': 'src/sync/manual_reset_event.rs',
+     'old': '''    pub fn is_set(&self) -> bool {
+        self.inner.lock().is_set()
+    }''',
+     'new': '''    pub fn is_set(&self) -> bool {
+        unsafe { (*self.inner.data_ptr()).is_set() }
+    }''',
+     'expect': {'C01': ['C01.I5'], 'C14': ['C14.R4']}},
+    {'name': 'semaphore-release-new-assert', 'file': 'src/sync/semaphore.rs',
+     'old': '''        // TODO: Overflow check
+        self.permits += permits;''',
+     'new': '''        // TODO: Overflow check
+        assert!(self.waiters.is_empty() || permits < 1024, "too many permits for a contended semaphore");
+        self.permits += permits;''',
+     'expect': {'C01': ['C01.P']}},
+    {'name': 'channel-stream-takes-pending-future', 'file': 'src/channel/mpmc.rs',
+     'old': '''                // Future was resolved, drop it.
+                if poll.is_ready() {
+                    mut_self.future.take();
+
+                    // If the channel was terminated, we let it drop.''',
+     'new': '''                // Future was resolved, drop it.
+                let moved = mut_self.future.take();
+                if poll.is_ready() {
+                    drop(moved);
+
+                    // If the channel was terminated, we let it drop.''',
+     'expect': {'C01': ['C01.I6'], 'C17': ['C17.R5']}},
+    {'name': 'mpmc-refill-takes-value-keeps-registered', 'file': 'src/channel/mpmc.rs',
+     'old': '''            self.buffer.push(value);
+
+            last_waiter.state = SendPollState::SendComplete;''',
+     'new': '''            self.buffer.push(value);
+
+            last_waiter.state = if self.is_closed { SendPollState::Unregistered } else { SendPollState::SendComplete };''',
+     'expect': {'C01': ['C01.P.V'], 'C09': ['C09.R2']}},
 ]
 
 BENIGN = [
